@@ -722,6 +722,28 @@ func checkListSupported(c *Check, p *Program) {
 			}
 		case *ssa.Const:
 			return x.Value == nil
+		case *ssa.UnOp:
+			// a local that a closure captures (sort.Slice's less function) lives in a cell of this call:
+			// everything stored there must be fresh, and the cell goes nowhere but into closures of this function
+			if cell, ok := x.X.(*ssa.Alloc); ok && x.Op == token.MUL && cell.Parent() == fn {
+				for _, st := range cellStores(cell) {
+					if !rootOK(st.Val, depth+1) {
+						return false
+					}
+				}
+				for _, af := range fn.AnonFuncs {
+					for _, fv := range af.FreeVars {
+						if closureBinding(fv) == ssa.Value(cell) {
+							for _, st := range cellStores2(fv) {
+								if !rootOK(st.Val, depth+1) {
+									return false
+								}
+							}
+						}
+					}
+				}
+				return len(cellStores(cell)) > 0
+			}
 		}
 		return false
 	}
@@ -815,4 +837,17 @@ func registryGlobal(p *Program) *ssa.Global {
 		return nil
 	}
 	return p.Global("knx/dpt", obj.Name())
+}
+
+// cellStores2: stores through a captured variable inside the closure.
+func cellStores2(fv *ssa.FreeVar) []*ssa.Store {
+	var out []*ssa.Store
+	if refs := fv.Referrers(); refs != nil {
+		for _, r := range *refs {
+			if st, ok := r.(*ssa.Store); ok && st.Addr == ssa.Value(fv) {
+				out = append(out, st)
+			}
+		}
+	}
+	return out
 }
